@@ -10,12 +10,13 @@ from harness.framework import MachineryError, VERIF
 SPEC = os.path.join(VERIF, 'specs', 'Channel')
 
 BASE = dict(Chans='{1}', DTs='{0, 1}', InitWin=3, PktSize=2, MaxUnits=4,
-            MaxWrite=3, MaxPause=2, Rogue=0, AccountBuffered='TRUE')
+            MaxWrite=3, MaxPause=2, Rogue=0, AccountBuffered='TRUE',
+            High=1, Low=0, ResumeStrict='FALSE')
 
 C07_INVS = ['DeliveredIsPrefix', 'Isolation', 'EOFLast']
 C08_INVS = ['NeverExceedPeerWindow', 'NeverExceedPktSize',
             'NeverAcceptBeyondGrant', 'BufferBounded', 'WindowSane',
-            'HonestNoError']
+            'HonestNoError', 'WriterNotStuck']
 
 
 def write_cfg(name, consts, invariants=(), properties=(), view=True,
@@ -79,7 +80,7 @@ def replay_all(ctx, pid, prefix, sims, seed):
             if len(steps) < 2:
                 continue
             r = channel.replay(steps, chans, d['InitWin'], d['PktSize'],
-                               scale)
+                               scale, d['High'], d['Low'])
             total += 1
             key = (name, tuple(map(str, r['script'])))
             ctx.count(key, nontrivial=len(r['script']) > 3)
@@ -112,14 +113,15 @@ def replay_all(ctx, pid, prefix, sims, seed):
 # code -> spec: recorded executions validated against Channel.tla by TLC
 # ---------------------------------------------------------------------------
 
-TRACE_DIAG = ['DiagSwin', 'DiagSbuf', 'DiagSstate', 'DiagRwin', 'DiagRbuf',
+TRACE_DIAG = ['DiagSwin', 'DiagSbuf', 'DiagSstate', 'DiagSpaused', 'DiagRwin', 'DiagRbuf',
               'DiagPaused', 'DiagRstate', 'DiagErr', 'DiagDlen']
 
 
-def trace_consts(initwin, pktsize):
+def trace_consts(initwin, pktsize, high=1, low=0):
     return dict(Chans='{1, 2}', DTs='{0, 1}', InitWin=initwin,
                 PktSize=pktsize, MaxUnits=1000000, MaxWrite=1000000,
-                MaxPause=1000000, Rogue=0, AccountBuffered='TRUE')
+                MaxPause=1000000, Rogue=0, AccountBuffered='TRUE',
+                High=high, Low=low, ResumeStrict='FALSE')
 
 
 def trace_validation(ctx, pid, quick):
@@ -131,22 +133,25 @@ def trace_validation(ctx, pid, quick):
     window must be rejected."""
     import copy
     from harness.drivers import channel
-    configs = [(5, 3), (1, 1), (4, 4), (16, 5)] if quick else \
-        [(5, 3), (1, 1), (2, 1), (3, 2), (4, 4), (16, 5), (64, 32), (7, 9),
-         (128, 16)]
+    # (window, packet size, high-water, low-water)
+    configs = [(5, 3, 1, 0), (1, 1, 0, 0), (4, 4, 3, 0), (16, 5, 8, 2)] \
+        if quick else \
+        [(5, 3, 1, 0), (1, 1, 0, 0), (2, 1, 2, 2), (3, 2, 4, 1), (4, 4, 3, 0),
+         (16, 5, 8, 2), (64, 32, 100, 25), (7, 9, 0, 0), (128, 16, 65536,
+                                                          16384)]
     per = 12 if quick else 150
     modes = ['mixed', 'whole', 'tiny', 'mixed nopi', 'stall whole',
              'tiny nopause']
     good = []
     total = matched = 0
-    for ci, (iw, pk) in enumerate(configs):
+    for ci, (iw, pk, hi, lo) in enumerate(configs):
         recs = []
         for i in range(per):
             seed = ctx.seed * 7919 + ci * 1000 + i
             chans = [1, 2] if i % 3 else [1]
             mode = modes[i % len(modes)]
             args = dict(seed=seed, chans=chans, initwin=iw, pktsize=pk,
-                        nwrites=4 + i % 4, mode=mode)
+                        nwrites=4 + i % 4, mode=mode, high=hi, low=lo)
             r = channel.record_natural(**args)
             r['args'] = args
             recs.append(r)
@@ -166,7 +171,8 @@ def trace_validation(ctx, pid, quick):
                                f'{r["loop_exceptions"][0]}')
         res, verdicts = tlc.validate_traces(
             SPEC, 'ChannelTrace', [r['trace'] for r in recs],
-            f'{pid.lower()}_tr_{iw}_{pk}', constants=trace_consts(iw, pk),
+            f'{pid.lower()}_tr_{iw}_{pk}',
+            constants=trace_consts(iw, pk, hi, lo),
             diag=TRACE_DIAG, progress='TraceProgress', report='TraceReport')
         ctx.add_tlc(f'ChannelTrace window={iw} packet={pk}', res)
         if res.violation:
@@ -201,7 +207,7 @@ def trace_validation(ctx, pid, quick):
                          'rejected (see violations / divergences)')
         return
     ctx.require(len(good) == 3, 'no recorded trace with window adjusts')
-    iw, pk = configs[0]
+    iw, pk, hi, lo = configs[0]
     bad = []
     t = copy.deepcopy(good[0])
     i = [k for k, e in enumerate(t['ev']) if e['e'] == 'dfwd'][1]
@@ -218,14 +224,14 @@ def trace_validation(ctx, pid, quick):
     bad.append(('emitted packet one byte longer', t))
     res, verdicts = tlc.validate_traces(
         SPEC, 'ChannelTrace', [b[1] for b in bad], f'{pid.lower()}_tr_neg',
-        constants=trace_consts(iw, pk), progress='TraceProgress',
+        constants=trace_consts(iw, pk, hi, lo), progress='TraceProgress',
         report='TraceReport')
     for i, (what, _) in enumerate(bad):
         ctx.require(i in verdicts and not verdicts[i]['accepted'],
                     f'binding control "{what}" was accepted by ChannelTrace')
     res, verdicts = tlc.validate_traces(
         SPEC, 'ChannelTrace', good, f'{pid.lower()}_tr_sens',
-        constants=trace_consts(iw + 1, pk), invariants=(),
+        constants=trace_consts(iw + 1, pk, hi, lo), invariants=(),
         progress='TraceProgress', report='TraceReport')
     ctx.require(verdicts and not any(v['accepted'] for v in verdicts.values()),
                 'a spec with the wrong initial window accepted a recorded '
